@@ -303,6 +303,8 @@ class Engine(NumpyTheory, Evaluator):
                 if r is None:
                     raise Unsupported('ndarray dunder on non-row data')
                 return r
+            if f.kind == 'ragmethod' and f.name == 'items':
+                return VRagItems(f.self_val)
             if f.kind == 'ragmethod':
                 self.rag_append(f.self_val, self.as_array(args[0], st) if isinstance(args[0], VList) else args[0], st)
                 return VNone()
@@ -458,6 +460,7 @@ class Engine(NumpyTheory, Evaluator):
         lv = f.self_val
         if f.name == 'append':
             self.list_append(lv, args[0], st)
+            self.writeback(lv, st)
             return VNone()
         if f.name == 'extend':
             src = args[0]
@@ -1025,6 +1028,8 @@ class Engine(NumpyTheory, Evaluator):
         for stmt in stmts:
             if front.is_dropped_stmt(stmt):
                 continue
+            if self.cur is not None and self.cur.cuts and not any(s_.spec for s_ in states):
+                self.apply_cuts(stmt, states, before=True)
             nxt = []
             for s in states:
                 if s.status != 'run':
@@ -1036,19 +1041,28 @@ class Engine(NumpyTheory, Evaluator):
                 self.apply_cuts(stmt, states)
         return states
 
-    def apply_cuts(self, stmt, states):
+    def apply_cuts(self, stmt, states, before=False):
         try:
             text = ' '.join(ast.unparse(stmt).split())
         except Exception:
             return
         for pref, lab, e in self.cur.cuts:
+            if pref.startswith('before:') != before:
+                continue
+            if before:
+                pref = pref[len('before:'):]
             if not text.startswith(' '.join(pref.split())):
                 continue
             self._cuts_hit = getattr(self, '_cuts_hit', set()) | {(self.cur.key, lab)}
             for s in states:
                 if s.status == 'run':
                     if lab.startswith('let:'):
-                        s.env[lab[4:]] = self.spec_eval(e, s)      # ghost name for a value that the code is about to overwrite
+                        v_ = self.spec_eval(e, s)      # ghost name for a value that the code is about to overwrite
+                        if isinstance(v_, VRag):       # frozen copy (cells are replaced, never mutated, so sharing the cell is a snapshot)
+                            r_ = s.heap.new_ref()
+                            s.heap.rags[r_] = s.heap.rags[v_.ref]
+                            v_ = VRag(r_)
+                        s.env[lab[4:]] = v_
                     else:
                         self.oblige(s, 'hint', lab, self.spec_truth(e, s), stmt)
 
@@ -1299,6 +1313,8 @@ class Engine(NumpyTheory, Evaluator):
                 f = n.func
                 if isinstance(f, ast.Attribute) and f.attr in ('append', 'extend', 'pop', 'insert') and isinstance(f.value, ast.Name):
                     mutated.add(f.value.id)
+                if isinstance(f, ast.Attribute) and f.attr in ('append', 'extend') and isinstance(f.value, ast.Subscript) and isinstance(f.value.value, ast.Name):
+                    mutated.add(f.value.value.id)
                 if isinstance(f, ast.Attribute) and f.attr in ('append', 'extend') and isinstance(f.value, ast.Attribute) \
                         and isinstance(f.value.value, ast.Name):
                     mutated.add(f.value.value.id + '.' + f.value.attr)
